@@ -38,6 +38,12 @@ Near ==
       DT(2021, 1, 15, 43201, 0, 0, "UTC"), DT(2021, 1, 15, 43200, 1, -18000, "New_York"),
       Coord("0x0000000000000000", "0x0000000000000000"), Coord("0x8000000000000000", "0x0000000000000000"), Coord("0x0000000000000000", "0x8000000000000000"),
       Coord(F64OfNumeral(T_("1")), F64OfNumeral(T_("2"))), Coord(F64OfNumeral(T_("1")), F64OfNumeral(T_("3"))), Coord(F64OfNumeral(T_("2")), F64OfNumeral(T_("1"))),
+      \* the neighbour family: payloads one small step apart (below any display or storage resolution one might round to)
+      Coord(F64OfNumeral(T_("37.545826")), F64OfNumeral(T_("-77.449188"))), Coord(F64OfNumeral(T_("37.5458262")), F64OfNumeral(T_("-77.449188"))),
+      Coord(F64OfNumeral(T_("37.545826")), F64OfNumeral(T_("-77.4491881"))), Coord("0x4042C5DDA6A44418", F64OfNumeral(T_("-77.449188"))),
+      Num("1.0000000000000002", <<>>), Num("0.9999999999999999", <<>>), Num("1.0000001", <<T_("m")>>), Num("1e-7", <<>>), Num("1.1e-7", <<>>),
+      Num("0.001", <<T_("s")>>), Num("0.0010000000000000002", <<T_("s")>>),
+      Time(12, 0, 0, 999999), Time(12, 0, 0, 1000000), DT(2021, 1, 15, 43200, 999, 0, "UTC"),
       G("3.0", <<>>, <<Col(a, <<>>)>>, <<>>), G("3.0", <<<<T_("m"), Marker>>>>, <<Col(a, <<>>)>>, <<>>), G("3.0", <<>>, <<Col(a, <<<<T_("m"), Marker>>>>)>>, <<>>),
       G("2.0", <<>>, <<Col(a, <<>>)>>, <<>>), G("3.0", <<>>, <<Col(b, <<>>)>>, <<>>), G("3.0", <<>>, <<Col(a, <<>>)>>, <<<<<<a, One>>>>>>),
       G("3.0", <<>>, <<Col(a, <<>>)>>, <<<<<<a, Num("0", <<>>)>>>>>>), G("3.0", <<>>, <<Col(a, <<>>)>>, <<<<<<a, Num("-0", <<>>)>>>>>>),
